@@ -6,6 +6,7 @@ package interp
 import (
 	"fmt"
 	"math/rand"
+	"os"
 	"sort"
 	"strings"
 	"sync"
@@ -155,11 +156,38 @@ func (p *Program) Explore(entryFn *ssa.Function, cfg RunConfig) *Result {
 	fns := make(map[*ssa.Function]bool)
 	incon := make(map[string]bool)
 	var wg sync.WaitGroup
+	stopProgress := make(chan struct{})
+	go func() {
+		tk := time.NewTicker(15 * time.Second)
+		defer tk.Stop()
+		for {
+			select {
+			case <-stopProgress:
+				return
+			case <-tk.C:
+				rmu.Lock()
+				wl.mu.Lock()
+				pending := len(wl.items)
+				wl.mu.Unlock()
+				el := time.Since(t0).Seconds()
+				if p.Verbose {
+					fmt.Fprintf(os.Stderr, "  ... %s: %.0fs paths=%d (%.0f/s) pending=%d outcomes=%v\n", entryFn.Name(), el, res.Paths, float64(res.Paths)/el, pending, res.ByOutcome)
+				}
+				if cfg.MaxWallS > 0 && el > float64(cfg.MaxWallS) {
+					res.BoundExceeded = true
+					rmu.Unlock()
+					wl.stop()
+					return
+				}
+				rmu.Unlock()
+			}
+		}
+	}()
 	for i := 0; i < cfg.Workers; i++ {
 		wg.Add(1)
 		go func() {
 			defer wg.Done()
-			sol, err := newSolver(cfg.Solver, cfg.SolverTimeoutMs)
+			sol, err := newSolver(cfg.Solver, cfg.SolverTimeoutMs, cfg.IntEncoding)
 			if err != nil {
 				rmu.Lock()
 				incon["solver start: "+err.Error()] = true
@@ -281,6 +309,7 @@ func (p *Program) Explore(entryFn *ssa.Function, cfg RunConfig) *Result {
 		}()
 	}
 	wg.Wait()
+	close(stopProgress)
 	for f := range fns {
 		n := 0
 		for _, b := range f.Blocks {
